@@ -40,6 +40,7 @@ type c08Case struct {
 	Extra         bool     `json:"extra"`
 	Pad           string   `json:"pad"`
 	Variant       string   `json:"variant"`
+	Pv            string   `json:"pv"`
 }
 
 // one declared response header of part "hdr": the schema is an abstract schema of spec/SchemaSem.tla
@@ -114,7 +115,11 @@ func c08Build(tcp *c08Case) (*openapi3filter.ResponseValidationInput, []byte, er
 		for _, k := range tc.Keys {
 			responses[k] = map[string]any{"description": k,
 				"content": jsonContent(map[string]any{"type": "object", "required": []any{"e" + k}})}
+			if tc.Pv == "reqhdr" {
+				responses[k].(map[string]any)["headers"] = map[string]any{"X-Req": map[string]any{"required": true, "schema": map[string]any{"type": "string"}}}
+			}
 		}
+		opts.ExcludeResponseBody = tc.Pv == "xb"
 		status, method = tc.Status, tc.Method
 		hdr.Set("Content-Type", "application/json")
 		body = []byte(`{"e` + tc.BodyKey + `":1}`)
